@@ -80,8 +80,10 @@ def run_harness_programs(chk, progs_path, trace_path, what, env):
 def run(chk):
     thorough = chk.tier == "thorough"
     chk.assumptions += [
-        "calls on one recorder are sequential (one thread per recorder, lock-step between threads): snapshots "
-        "concurrent with updates are the bucket's / registry's / handles' properties (C05, C06, C04)",
+        "histories (describe/register/update/snapshot sequences) are issued in lock-step (one call at a time); concurrent "
+        "use of one recorder is covered by SharedRegister.tla + real-parallel rounds for registration of an equal key "
+        "and one update per handle, with the snapshot taken at quiescence; a snapshot running concurrently with "
+        "updates is the bucket's property (C05, known finding CF05a) and is not exercised",
         "gauge and histogram values are integer valued f64 (exact arithmetic); counters use x*2^64/w so that "
         "wrap-around is arithmetic modulo w",
         "histogram values within one snapshot are compared as a bag (the property does not fix their order)",
@@ -105,6 +107,22 @@ def run(chk):
         if not chk.expect_mc_ok(r, "DebugSnapshot/" + name, vacuity_exempt=exempt_for(c["Kinds"])):
             return
         chk.log("TLC %s: %d distinct states, %d generated, depth %d, %.0fs" % (name, r["distinct"], r["generated"], r["depth"], r["wall"]))
+
+    # ---- 1b. concurrent use of ONE recorder: lock-level protocol of register_* / get_or_create_* for 2-3 threads
+    #          racing on an equal key (all interleavings), and the witness that the model rejects the variant
+    #          without the second look-up under the write guard
+    sr_inv = "SameStorage NoLostUpdate AllListed QuiescentExact"
+    for name, threads in [("shared_2", "{1,2}"), ("shared_3", "{1,2,3}")] + ([("shared_4", "{1,2,3,4}")] if thorough else []):
+        cfg = write_cfg(name, "Spec", dict(Threads=threads, Recheck="TRUE"), sr_inv)
+        r = vlib.tlc_mc(SPEC, "SharedRegister", cfg, workers=8, timeout=3000, tag=name)
+        if not chk.expect_mc_ok(r, "SharedRegister/" + name):
+            return
+        chk.log("TLC %s: %d distinct states, %d generated, depth %d, %.0fs" % (name, r["distinct"], r["generated"], r["depth"], r["wall"]))
+    cfg = write_cfg("shared_norecheck", "Spec", dict(Threads="{1,2}", Recheck="FALSE"), sr_inv)
+    r = vlib.tlc_mc(SPEC, "SharedRegister", cfg, workers=4, timeout=600, tag="shared_norecheck", coverage=False)
+    if r["invariant"] is None:
+        chk.tool_error("SharedRegister no longer rejects insert-without-recheck (witness lost)", r["out"][-2000:])
+    chk.notes["insert_without_recheck_witness"] = "Recheck=FALSE violates %s at depth %d" % (r["invariant"], r["depth"])
 
     # ---- 2. harness against the repository's working tree
     ok, out, wall = vlib.cargo_build("c19")
@@ -200,13 +218,32 @@ def run(chk):
     chk.cov["distinct_nontrivial"] += s2.get("distinct_programs", 0) + s3.get("distinct_programs", 0)
     chk.cov["evaluations"] += s2["snapshots_compared_with_tlc"] + s3["snapshots_compared_with_tlc"]
 
+    # ---- 5. concurrent use of ONE recorder on the real code: real-parallel rounds (N threads register an equal key
+    #         as counter, gauge, histogram at the same moment and update once; snapshot at quiescence), free-running
+    #         and gated at the registry's read->write lock gap; every round's snapshot is checked by TLC against
+    #         RoundSnapshot (counter = n, gauge = n, histogram = every tid once, order c, g, h)
+    tr5 = chk.path("rounds.ndjson")
+    nfree, ngated = (12000, 1000) if thorough else (3000, 300)
+    rc, out, s5 = vlib.harness("c19", ["rounds", "--rounds", nfree, "--gated", ngated, "--threads", 8, "--out", tr5],
+                               env=env, timeout=1200)
+    if rc != 0 or not s5:
+        chk.tool_error("c19 rounds failed", out)
+    n5 = vlib.validate_concat(chk, SPEC, "TraceDebugSnapshot", tcfg, tr5, "parallel rounds on one recorder",
+                              max_rounds=3, timeout=3000)
+    chk.cov["traces_validated_against_impl"] += n5
+    chk.notes["rounds"] = s5
+    chk.log("parallel rounds: %d free (8 threads) + %d gated (4 threads): harness tally %d + %d bad, gate timeouts %d"
+            % (s5["free_rounds"], s5["gated_rounds"], s5["bad_free_rounds"], s5["bad_gated_rounds"], s5["gate_timeouts"]))
+
     with open(tr) as f:
         head = [json.loads(next(f)) for _ in range(8)]
     chk.cov["samples"].append({"source": "recorded history (first events)", "events": head})
     chk.cov["rule"] = ("exhaustive TLC over every history of <= MaxOps describe/register/update/snapshot calls within the "
                        "listed constants; implementation runs = seeded random histories (distinct = distinct call "
                        "sequences, ignoring how keys were built) validated by TLC + TLC-generated histories (random long "
-                       "and all histories of a small scope) executed on the real recorder with every snapshot compared")
+                       "and all histories of a small scope) executed on the real recorder with every snapshot compared "
+                       "+ real-parallel rounds (free and gated at the registry lock gap) on one shared recorder, each "
+                       "round's quiescent snapshot checked by TLC")
 
 
 def replay(chk, path):
@@ -218,6 +255,15 @@ def replay(chk, path):
     lines = [l for l in open(path).read().splitlines() if l.strip()]
     first = json.loads(lines[0])
     progs = chk.path("replay_programs.ndjson")
+    if any('"ev":"round"' in l for l in lines):
+        # a failed parallel round: the schedule is not recorded (real parallel threads); run the stage again
+        tr5 = chk.path("replay_rounds.ndjson")
+        rc, out, s5 = vlib.harness("c19", ["rounds", "--rounds", 3000, "--gated", 300, "--threads", 8, "--out", tr5],
+                                   env={"VERIF_SEED": str(chk.seed)}, timeout=1200)
+        if rc != 0 or not s5:
+            chk.tool_error("c19 rounds failed", out)
+        vlib.validate_concat(chk, SPEC, "TraceDebugSnapshot", "TraceDebugSnapshot.cfg", tr5, "replay: parallel rounds", max_rounds=3)
+        return
     if "ops" in first:
         open(progs, "w").write("\n".join(lines) + "\n")
     else:
